@@ -216,7 +216,8 @@ fn replay_one(e: &Value, st: &mut Stats) -> Vec<Value> {
         st.nontrivial += 1;
     }
     st.bytes_delivered += groups.iter().flatten().filter(|ev| ev[0] == "rd").map(|ev| ev[3].len()).sum::<usize>();
-    if parsed.res != "ok" {
+    // (the parse knows no aliases: its verdict on an alias scenario means nothing)
+    if parsed.res != "ok" && sc.place != "alias" {
         let o = run::run_mode(&text, MODES[0]);
         st.runs += 1;
         report(
@@ -227,7 +228,8 @@ fn replay_one(e: &Value, st: &mut Stats) -> Vec<Value> {
         st.mismatches += 1;
         return out;
     }
-    if sc.place != "subst" {
+    // subst / alias / eval: the here-document is not in the tree of the script itself
+    if !matches!(sc.place.as_str(), "subst" | "alias" | "eval") {
         st.docs_checked += 1;
         let exp_docs = &e["docs"];
         let got_docs = run::docs_json(&parsed.docs);
